@@ -262,11 +262,12 @@ fn sweep_one(
     lay: &Layout,
     public: bool,
     pos: usize,
+    rnd: Option<u64>,
 ) -> CaseResult {
     let name = shape.name();
     let kind = shape.kind();
     let which = if public { "public" } else { "private" };
-    let key = format!("{name}:{which}[{pos}]");
+    let key = format!("{name}:{which}[{pos}]{}", if rnd.is_some() { ":rnd" } else { "" });
     let d = lay.pubs.first().or(lay.privs.first()).map(|v| v.len()).unwrap_or(1);
     let loc = if public { &lay.pub_loc[pos] } else { &lay.priv_loc[pos] };
     let mut pubs = lay.pubs.clone();
@@ -287,7 +288,16 @@ fn sweep_one(
     let Some(old) = js::get(h, &leaf).and_then(|v| v.as_u64()) else {
         return CaseResult::inconclusive(key, "non-u64 leaf");
     };
-    let new = if old + 1 >= shape.order() { 0 } else { old + 1 };
+    let new = match rnd {
+        Some(r) if r % shape.order() != old => r % shape.order(),
+        _ => {
+            if old + 1 >= shape.order() {
+                0
+            } else {
+                old + 1
+            }
+        }
+    };
     let mut m = h.clone();
     js::set(&mut m, &leaf, Value::from(new));
     let Some(newval) = expected(shape, &m, loc, d) else { return CaseResult::inconclusive(key, "mutant element") };
@@ -332,7 +342,15 @@ struct Job {
     hi: usize,
 }
 
-fn run_job(shapes: &[Box<dyn Shape>], honest: &[Option<Arc<Value>>], lays: &[Option<Layout>], job: &Job) -> Vec<CaseResult> {
+fn run_job(
+    shapes: &[Box<dyn Shape>],
+    honest: &[Option<Arc<Value>>],
+    lays: &[Option<Layout>],
+    job: &Job,
+    seed: u64,
+    thorough: bool,
+) -> Vec<CaseResult> {
+    use rand::RngExt;
     let shape = &shapes[job.shape];
     let name = shape.name();
     let (Some(h), Some(lay)) = (&honest[job.shape], &lays[job.shape]) else { return vec![] };
@@ -345,9 +363,16 @@ fn run_job(shapes: &[Box<dyn Shape>], honest: &[Option<Arc<Value>>], lays: &[Opt
         Ok(Err(v)) => return vec![CaseResult::inconclusive(format!("{name}:compile"), v.label())],
         Err(e) => return vec![CaseResult::inconclusive(format!("{name}:compile"), e)],
     };
-    (job.lo..job.hi)
-        .map(|pos| sweep_one(shape.as_ref(), ctx.as_ref(), compiled.as_ref(), h, lay, job.public, pos))
-        .collect()
+    let mut out = vec![];
+    for pos in job.lo..job.hi {
+        out.push(sweep_one(shape.as_ref(), ctx.as_ref(), compiled.as_ref(), h, lay, job.public, pos, None));
+        if thorough {
+            let mut rng = case_rng(seed, &format!("{name}:{}", job.public), pos as u64);
+            let r: u64 = rng.random();
+            out.push(sweep_one(shape.as_ref(), ctx.as_ref(), compiled.as_ref(), h, lay, job.public, pos, Some(r)));
+        }
+    }
+    out
 }
 
 fn replay(path: &std::path::Path) -> Vec<CaseResult> {
@@ -372,7 +397,7 @@ fn replay(path: &std::path::Path) -> Vec<CaseResult> {
             };
             let public = d["public"].as_bool().unwrap_or(true);
             let pos = d["position"].as_u64().unwrap_or(0) as usize;
-            vec![sweep_one(shape.as_ref(), ctx.as_ref(), compiled.as_ref(), &h, &lay, public, pos)]
+            vec![sweep_one(shape.as_ref(), ctx.as_ref(), compiled.as_ref(), &h, &lay, public, pos, None)]
         }
         // layout findings are a function of the shape: re-run (a)+(b) and keep the violations
         _ => {
@@ -445,7 +470,8 @@ fn main() {
         honest.push(Some(Arc::new(h)));
         lays.push(lay);
     }
-    let results = run_cases(jobs.len(), args.threads, |i| run_job(&shapes, &honest, &lays, &jobs[i]));
+    let seed = args.seed;
+    let results = run_cases(jobs.len(), args.threads, |i| run_job(&shapes, &honest, &lays, &jobs[i], seed, thorough));
     if results.iter().any(|r| matches!(r.verdict, Verdict::Inconclusive(_))) {
         complete = false;
     }
